@@ -233,6 +233,8 @@ func extraC10(c *Check) {
 							continue
 						}
 						n++
+						mapT := l.T.Args[0].Args[0]
+						c.Req(!mapT.IsField(spec.field) && !mapT.Contains(func(x *Term) bool { return x.IsField(spec.field) }), name, p.InstrPos(blockIf(b)), nthKey("gone:tested-against-fresh-list", n), "'no longer listed' is decided against the list just read from the coordination service, not against the registry itself (which contains every registered host by construction)", "membership is tested in "+mapT.String())
 						// next iteration = the block holding the Next instruction of the same range
 						stop := func(in ssa.Instruction) bool {
 							if nx, ok := in.(*ssa.Next); ok {
